@@ -214,6 +214,7 @@ func (jm *jsModel) acceptsEOFJS(c jsCfg) (bool, string) {
 	cfg := c
 	for i := 0; i < 8; i++ {
 		var act string
+		var queued []string
 		n := 0
 		for _, r := range jm.eof {
 			ok := true
@@ -229,6 +230,7 @@ func (jm *jsModel) acceptsEOFJS(c jsCfg) (bool, string) {
 			}
 			if ok {
 				act = r.action
+				queued = r.queued
 				n++
 			}
 		}
@@ -241,7 +243,7 @@ func (jm *jsModel) acceptsEOFJS(c jsCfg) (bool, string) {
 		case act == "reject":
 			return false, ""
 		case strings.HasPrefix(act, "emit:"):
-			if !jm.applyFinds(&cfg.implCfg, []string{strings.TrimPrefix(act, "emit:")}) {
+			if !jm.applyFinds(&cfg.implCfg, append([]string{strings.TrimPrefix(act, "emit:")}, queued...)) {
 				return false, ""
 			}
 		}
@@ -262,58 +264,10 @@ func c03subset(c *core.Ctx) {
 	const R = "C03.subset"
 	c.Rule(R, "every RFC 8259 text without exponent numbers is accepted by the schema scanner: one-directional lock-step simulation of the reference JSON recogniser by the pushdown model extracted from notations/jschema/scanner (per-byte summaries of its 62 state functions, end-of-input table from Next, pair tables, context stack, annotation mode and the other constant fields tracked in the configuration), over every byte the reference accepts, all configurations up to nesting depth 3 - each configuration where the reference accepts a byte or end of input and the scanner model rejects is reported with a shortest witness")
 	c.Floor(R, 20)
-	m := buildScanModel(c, "notations/jschema/scanner")
-	if len(m.names) < 50 {
-		c.Unresolved(R, core.F("state functions of notations/jschema/scanner (found %d)", len(m.names)))
-		return
-	}
-	lt := extractLexTables(c, R, "notations/jschema/scanner")
-	if lt == nil {
-		return
-	}
-	eof, ok := extractEOF(c, R, m, "notations/jschema/scanner", "Scanner")
+	jm, m, initial, fields, ok := newJSModel(c, R)
 	if !ok {
-		c.Bad(R, "eof-table", "-", "end-of-input table of (*Scanner).Next", "undecided: could not decode the end-of-input branch of Next")
 		return
 	}
-	zero := map[string]constant.Value{}
-	if nt := c.P.NamedType("notations/jschema/scanner", "Scanner"); nt != nil {
-		st := nt.Underlying().(*types.Struct)
-		for i := 0; i < st.NumFields(); i++ {
-			if b, ok := st.Field(i).Type().Underlying().(*types.Basic); ok {
-				switch {
-				case b.Info()&types.IsBoolean != 0:
-					zero[st.Field(i).Name()] = constant.MakeBool(false)
-				case b.Info()&types.IsInteger != 0:
-					zero[st.Field(i).Name()] = constant.MakeInt64(0)
-				}
-			}
-		}
-	}
-	// initial configuration from scanner.New
-	initial := ""
-	fields := map[string]string{"context.Type": "0", "context.ArrayHasItem": "false"}
-	if ns := c.P.Func("notations/jschema/scanner", "New"); ns != nil {
-		in := absint.New(absint.Config{InModule: c.P.FuncInModule, Inline: func(f *ssa.Function) bool { return f.Name() == "newContext" }})
-		for _, o := range in.Run(ns, []absint.Val{absint.Param("file"), absint.Const{}}, nil) {
-			if p, ok := o.Val.(absint.Ptr); ok {
-				if v, ok := o.St.Mem(absint.Ptr{Base: p.Base, Path: ".step"}.Key()); ok {
-					initial = stateNameOf(v)
-				}
-				if v, ok := o.St.Mem(absint.Ptr{Base: p.Base, Path: ".allowAnnotation"}.Key()); ok {
-					if cst, ok := v.(absint.Const); ok && cst.V != nil {
-						fields["allowAnnotation"] = cst.V.ExactString()
-					}
-				}
-			}
-		}
-	}
-	if m.states[initial] == nil {
-		c.Bad(R, "initial-state", "-", "initial step of scanner.New", "undecided: New does not store a state function in step (got "+initial+")")
-		return
-	}
-	obsAll := map[string]bool{}
-	jm := &jsModel{&implModel{m: m, lt: lt, eof: eof, obs: obsAll, zero: zero, flags: map[string]constant.Value{"lengthComputing": constant.MakeBool(false)}}}
 	type item struct {
 		ic jsCfg
 		rc refCfg
@@ -386,4 +340,61 @@ func c03subset(c *core.Ctx) {
 	c.Extra["C03.subset.product_states"] = len(seen)
 	c.Extra["C03.subset.transitions"] = trans
 	c.Extra["exhaustive"] = true
+}
+
+// newJSModel builds the pushdown model of the schema scanner and its initial configuration.
+func newJSModel(c *core.Ctx, R string) (jm *jsModel, m *scanModel, initial string, fields map[string]string, ok bool) {
+	m = buildScanModel(c, "notations/jschema/scanner")
+	if len(m.names) < 50 {
+		c.Unresolved(R, core.F("state functions of notations/jschema/scanner (found %d)", len(m.names)))
+		return nil, nil, "", nil, false
+	}
+	lt := extractLexTables(c, R, "notations/jschema/scanner")
+	if lt == nil {
+		return nil, nil, "", nil, false
+	}
+	eof, okE := extractEOF(c, R, m, "notations/jschema/scanner", "Scanner")
+	if !okE {
+		c.Bad(R, "eof-table", "-", "end-of-input table of (*Scanner).Next", "undecided: could not decode the end-of-input branch of Next")
+		return nil, nil, "", nil, false
+	}
+	zero := map[string]constant.Value{}
+	if nt := c.P.NamedType("notations/jschema/scanner", "Scanner"); nt != nil {
+		st := nt.Underlying().(*types.Struct)
+		for i := 0; i < st.NumFields(); i++ {
+			if b, ok := st.Field(i).Type().Underlying().(*types.Basic); ok {
+				switch {
+				case b.Info()&types.IsBoolean != 0:
+					zero[st.Field(i).Name()] = constant.MakeBool(false)
+				case b.Info()&types.IsInteger != 0:
+					zero[st.Field(i).Name()] = constant.MakeInt64(0)
+				}
+			}
+		}
+	}
+	// initial configuration from scanner.New
+	initial = ""
+	fields = map[string]string{"context.Type": "0", "context.ArrayHasItem": "false"}
+	if ns := c.P.Func("notations/jschema/scanner", "New"); ns != nil {
+		in := absint.New(absint.Config{InModule: c.P.FuncInModule, Inline: func(f *ssa.Function) bool { return f.Name() == "newContext" }})
+		for _, o := range in.Run(ns, []absint.Val{absint.Param("file"), absint.Const{}}, nil) {
+			if p, ok := o.Val.(absint.Ptr); ok {
+				if v, ok := o.St.Mem(absint.Ptr{Base: p.Base, Path: ".step"}.Key()); ok {
+					initial = stateNameOf(v)
+				}
+				if v, ok := o.St.Mem(absint.Ptr{Base: p.Base, Path: ".allowAnnotation"}.Key()); ok {
+					if cst, ok := v.(absint.Const); ok && cst.V != nil {
+						fields["allowAnnotation"] = cst.V.ExactString()
+					}
+				}
+			}
+		}
+	}
+	if m.states[initial] == nil {
+		c.Bad(R, "initial-state", "-", "initial step of scanner.New", "undecided: New does not store a state function in step (got "+initial+")")
+		return nil, nil, "", nil, false
+	}
+	obsAll := map[string]bool{}
+	jm = &jsModel{&implModel{m: m, lt: lt, eof: eof, obs: obsAll, zero: zero, flags: map[string]constant.Value{"lengthComputing": constant.MakeBool(false)}}}
+	return jm, m, initial, fields, true
 }
